@@ -80,6 +80,11 @@ CLAIMED = {
          "Corpus of ~80 well-formed applications (collision apps of every other check, the repository's examples loaded from the current tree through the harness's own assembly reader with input-determined stubs). From every reached session state every selector and 14 junk inputs (empty, NUL, invalid UTF-8, template syntax, 255/256/300 bytes ...) are tried; every request is checked for panics, instruction budget, one cache scope per navigation level, exact size accounting, declared limits, snapshot decode/re-encode equality and continued service.",
          "Trusted: the static well-formedness checker decides which applications are in scope. State graphs are capped (400 states quick / 4000 thorough per application and configuration); capped graphs are reported. No random continuation.",
          "DESIGN.md §4 C08"),
+ "C07": ("model_checking",
+         "bounded-exhaustive enumeration of input histories over an application corpus, each served in lockstep by a long-lived engine and by fresh engine+persister+store handle per request on four backends and two client styles; differential oracle on the client-visible tuple + snapshot decode/re-encode equality",
+         "~80 corpus applications x configuration variants x all histories up to depth 4 (quick) / 5 (thorough) over the application's selectors plus junk: per request (output, continue, Exec error?, Flush error?) must agree between the long-lived engine and every persisted twin (mem, fs text keys, fs binary keys, Postgres over the in-process fake; Finish always / only after success), and the stored record must decode to exactly the state that was saved.",
+         "Trusted: nothing but the two modes themselves (differential). A long-lived engine is not continued after its session ended (documented as undefined). One open known finding (session left without code and position after two consecutive failures).",
+         "DESIGN.md §4 C07"),
 }
 
 NOT_YET = {}
